@@ -33,9 +33,9 @@ def asmfinish_query(n, ao, cls=8, hist=0, pend=3, core=False, witness=False, tim
     p = dict(harness="harness/C10/h_asmfinish.c", units=D.UNITS + ["igzip/igzip_base.c"], vunits=D.VUNITS,
              defines=["_X86INTRIN_H_INCLUDED=1", "_IMMINTRIN_H_INCLUDED=1"], hdefines=["N=%d" % n, "AVAIL_OUT=%d" % ao, "PEND=%d" % pend, "CLS=%d" % cls, "HIST=%d" % hist],
              instrument=[["@gen", "harness.inflate_common.lift_gen:gen_asmfinish", "lift_asmfinish.c", {}]],
-             unwind=n + 4, unwindset=["LIFT_RD.0:9", "LIFT_WR.0:9", "harness.0:%d" % (n + 2), "wmemset.0:4100", "lift_ctz.0:65", "lift_clz.0:65",
+             unwind=n + 4, unwindset=["LIFT_RD.0:9", "LIFT_WR.0:9", "harness.0:%d" % (n + 2), "harness.1:%d" % (n + 2), "harness.2:%d" % (n + 2), "wmemset.0:4100", "lift_ctz.0:65", "lift_clz.0:65",
                         "lift_popcnt.0:65", "lift_crc32c.0:65", "lift_rep_movs.0:260"],
-             flags=["--slice-formula"], witness=witness, timeout=timeout, mem_gb=16)
+             flags=["--slice-formula"], witness=witness, timeout=timeout, mem_gb=16, hunt_unwind=1)
     return Query("x86lift/isal_deflate_finish_01/n%d_ao%d_c%d_h%d" % (n, ao, cls, hist), D.R, p, core=core, family="x86lift/isal_deflate_finish_01", weight=4 ** min(n, 6))
 
 
